@@ -12,6 +12,9 @@
 //!   rec  seed ver feat                generated header + record: write/read equality, lazy accessors
 //!                                     vs eager, spans, text fixed point
 //!   hdr  seed ver feat                generated header text: parse/write fixed point and equality
+//!   ovl  ver hex                      INFO column over a pool of overlapping keys (END/MATEEND/CIEND/..,
+//!                                     SVLEN/XSVLEN/.., AC/MLEAC/..): lazy Info::get for every pool key vs the
+//!                                     eager map, variant_end / variant_span lazy vs eager
 //!   bad  hex                          malformed record line: no panic, lazy/eager agree on failure
 //! value specs: M | B | I<int> | F<bits> | C<codepoint> | S<hex> | AI.. AF.. AC.. AS.. (',' joined,
 //! '.' = missing entry) | G(/|'|')(pos|.)...
@@ -513,6 +516,7 @@ fn run(c: &Case) -> Obs {
         "rec" => rec::run_rec(c),
         "hdr" => rec::run_hdr(c),
         "bad" => rec::run_bad(c),
+        "ovl" => rec::run_ovl(c),
         k => Obs::fail("-", "unknown-kind", k),
     }
 }
